@@ -181,16 +181,17 @@ func c10SendFailsAfterDelivery(c *ev.Ctx) {
 		if !strings.HasPrefix(a, "error:") {
 			c.Violation("C10:send-fails:call-succeeds-although-its-send-reported-an-error", det)
 		}
-		if b != "" {
+		if b != "" && !strings.HasPrefix(b, "error:") {
 			c.Violation("C10:send-fails:other-call-affected", det)
 		}
-		// the connection is as good as before: one more call
+		// one more call: it gets its own reply or an error (the transport has
+		// reported a failure: the connection may be called broken)
 		done2 := make(chan struct{})
 		var l string
 		go func() { l = cc.do(2, c10call{kind: 'G'}); close(done2) }()
 		if o, d := quiesce.Await(done2, wd); o != quiesce.CondMet {
 			hang(c, o, d, "C10:send-fails:later-call-hangs", det)
-		} else if l != "" {
+		} else if l != "" && !strings.HasPrefix(l, "error:") {
 			det["later"] = l
 			c.Violation("C10:send-fails:later-call-affected", det)
 		}
@@ -313,4 +314,109 @@ func direntsDiffer(d []p9.Dirent, fid, off uint64, n int) string {
 		}
 	}
 	return ""
+}
+
+// (7b) the same transport failure, and the reply to the withdrawn request
+// arrives LATE: after the next call has been made. The client has called the
+// request "not sent"; if it hands the tag to the next call, that call is given
+// the withdrawn request's reply - another call's data. Either the next call gets
+// its own reply, or it fails.
+func c10SendFailsLateReply(c *ev.Ctx) {
+	for round := 0; round < c.Sz(6, 60); round++ {
+		if !c.Mine(round + 1) {
+			continue
+		}
+		c.Begin(fmt.Sprintf("C10 send fails, late reply meets the next call, round %d", round))
+		fs := fakesrv.New(nil)
+		auto := fakesrv.Auto(0, 7)
+		fs.Handler = auto
+		fc := &failAfterConn{Conn: fs.C}
+		var cl *p9.Client
+		var files []p9.File
+		var fids []uint64
+		var err error
+		var root p9.File
+		ok := ev.Watch(wd, func() {
+			cl, err = p9.NewClient(fc, p9.WithMessageSize(1<<16))
+			if err != nil {
+				return
+			}
+			if root, err = cl.Attach(""); err != nil {
+				return
+			}
+			for i := 0; i < 3; i++ {
+				var f p9.File
+				if _, f, err = root.Walk([]string{fmt.Sprintf("f%d", i)}); err != nil {
+					return
+				}
+				files = append(files, f)
+				fids = append(fids, lastNewfid(fs))
+			}
+		})
+		if !ok || err != nil {
+			c.Inconclusive(fmt.Sprintf("C10 send-fails setup: %v", err))
+			fs.Shutdown()
+			continue
+		}
+		cc := &c10Client{fs: fs, cl: cl, root: root, files: files, fids: fids}
+		var hmu sync.Mutex
+		var replyA, replyC []byte
+		fs.Handler = func(s *fakesrv.Server, rq *fakesrv.Req) {
+			if rq.Err == nil && rq.Msg.Type == wire.Tgetattr {
+				fid := rq.Msg.F[0].(uint64)
+				t, vals := fakesrv.Derived(rq.Msg, 1<<16)
+				fr := wire.Encode(t, rq.Msg.Tag, vals...)
+				hmu.Lock()
+				defer hmu.Unlock()
+				switch fid {
+				case fids[1]:
+					replyA = fr
+					return
+				case fids[2]:
+					replyC = fr
+					return
+				}
+			}
+			auto(s, rq)
+		}
+		fc.arm()
+		resA := make(chan string, 1)
+		go func() { resA <- cc.do(1, c10call{kind: 'G'}) }()
+		<-fc.parked
+		close(fc.release)
+		if o, d := quiesce.WaitUntil(func() bool { return len(resA) > 0 }, wd); o != quiesce.CondMet {
+			hang(c, o, d, "C10:send-fails:call-whose-send-failed-hangs", nil)
+			fs.Shutdown()
+			continue
+		}
+		a := <-resA
+		n0 := fs.NReqs()
+		resC := make(chan string, 1)
+		go func() { resC <- cc.do(2, c10call{kind: 'G', off: uint64(round)}) }()
+		// C's request has arrived - or C has failed without sending
+		quiesce.WaitUntil(func() bool { return fs.NReqs() > n0 || len(resC) > 0 }, wd)
+		hmu.Lock()
+		fs.SendRaw(replyA) // late
+		if replyC != nil {
+			fs.SendRaw(replyC)
+		}
+		hmu.Unlock()
+		if o, d := quiesce.WaitUntil(func() bool { return len(resC) > 0 }, wd); o != quiesce.CondMet {
+			hang(c, o, d, "C10:send-fails:next-call-hangs", nil)
+			fs.Shutdown()
+			continue
+		}
+		cr := <-resC
+		det := map[string]any{"A": a, "C": cr}
+		if !strings.HasPrefix(a, "error:") {
+			c.Violation("C10:send-fails:call-succeeds-although-its-send-reported-an-error", det)
+		}
+		if cr != "" && !strings.HasPrefix(cr, "error:") {
+			c.Violation("C10:send-fails:next-call-is-handed-the-reply-to-the-withdrawn-request", det)
+		}
+		c.Case("send-fails-late-reply", true)
+		c.Count("send_fails_late_reply_rounds", 1)
+		fs.Shutdown()
+		runtime.KeepAlive(cc)
+	}
 }
